@@ -34,9 +34,10 @@ type planSpec struct {
 }
 
 type clientOp struct {
-	Op   string `json:"op"` // put getbytes getfile get
+	Op   string `json:"op"` // put putdiff getbytes getfile get
 	ID   string `json:"id"`
 	Data string `json:"data,omitempty"`
+	R    int    `json:"r,omitempty"` // putdiff: the source delivers other bytes from offset R on, on the second pass
 }
 
 type request struct {
@@ -301,6 +302,12 @@ func runClientOp(c *cache.Cache, o clientOp) (s string) {
 			return "PUTFAILED"
 		}
 		return fmt.Sprintf("PUTOK %s %d", hex.EncodeToString(out[:]), n)
+	case "putdiff":
+		out, n, err := c.Put(id, &srcReader{data: unhex(o.Data), spec: "diff2", r: o.R})
+		if err != nil {
+			return "PUTFAILED"
+		}
+		return fmt.Sprintf("PUTOK %s %d", hex.EncodeToString(out[:]), n)
 	case "get":
 		e, err := c.Get(id)
 		if err != nil {
@@ -318,7 +325,12 @@ func runClientOp(c *cache.Cache, o clientOp) (s string) {
 		if err != nil {
 			return "NF"
 		}
-		return "F " + filepath.Base(file) + " " + showEntry(e)
+		// direct oracle, evaluated at once (no file operation of the shim: no other client runs in between)
+		bad := ""
+		if b, err := os.ReadFile(file); err != nil || int64(len(b)) != e.Size || sha256.Sum256(b) != e.OutputID {
+			bad = " BADFILE"
+		}
+		return "F " + filepath.Base(file) + " " + showEntry(e) + bad
 	}
 	return "BAD-OP"
 }
